@@ -19,6 +19,12 @@ def run(res, tier, seed, replay):
     if not exe: return
     n = 64 if tier == "quick" else 4096
     lines = [f"near near {n} {seed + 1}", f"far far {n} {seed + 2}", f"odd odd {n} {seed + 4}", f"rust rust {n} {seed + 3}"]
+    # the far fake at addresses of every size class: below 2 GiB, in [2 GiB, 4 GiB) (bit 31 set), just above 4 GiB, and high
+    rb = random.Random(seed + 130)
+    bases = [0x10000000 + rb.randrange(0x60000) * 4096, 0x80000000 + rb.randrange(0x7fff0) * 4096, 0x80000000 + rb.randrange(0x7fff0) * 4096, 0x100000000 + rb.randrange(0x100000) * 4096, 0x600000000000 - rb.randrange(1, 0x100000) * 4096]
+    if tier == "thorough": bases += [0x80000000 + rb.randrange(0x7fff0) * 4096 for _ in range(12)] + [0x10000 + rb.randrange(0x7ff00) * 4096 for _ in range(12)]
+    farat = [f"farat{b:x}" for b in bases]
+    lines += [f"{m} {m} {max(16, n // 4)} {seed + 5 + i}" for i, m in enumerate(farat)]
     p = subprocess.run([exe, "abi"], input="\n".join(lines) + "\n", capture_output=True, text=True, timeout=600)
     seen = set()
     for l in p.stdout.split("\n"):
@@ -26,6 +32,7 @@ def run(res, tier, seed, replay):
         if len(t) < 2: continue
         if t[1] == "MISMATCH":
             res.violation("register/stack state at the fake's entry or after its return differs from what the caller set up", dict(mode=t[0], line=l), l)
+        elif t[1] == "SKIPPED": seen.add(t[0]); res.extra["abi_placements_skipped"] = res.extra.get("abi_placements_skipped", 0) + 1
         elif t[1] == "DONE":
             seen.add(t[0])
             kv = dict(x.split("=", 1) for x in t[2:] if "=" in x)
@@ -34,7 +41,7 @@ def run(res, tier, seed, replay):
             res.extra.setdefault("scratch_registers_changed", {})[t[0]] = kv.get("scratch_changed")
         elif t[1] == "CHILD" and t[2] != "exit:0":
             res.violation(f"ABI probe died with {t[2]}", dict(mode=t[0]), l)
-    if seen != {"near", "far", "odd", "rust"}: res.broke("ABI probe did not complete", p.stdout[-2000:] + p.stderr[-1000:])
+    if seen != {"near", "far", "odd", "rust"} | set(farat): res.broke("ABI probe did not complete", p.stdout[-2000:] + p.stderr[-1000:])
     res.cov["evaluations"] += 3 * n; res.cov["traces_validated_against_impl"] += 3 * n; res.cov["distinct_nontrivial"] += 3 * 4
     res.cov["samples"] += lines
     # sim: registers written by the redirection, for random placements and both trampoline forms
